@@ -3,7 +3,7 @@ from gvc.core import props
 from gvc.core.goverify import GoVerifier
 spec,_=props.load_specs()
 keys=[c.key for c in spec.contracts if c.kind=='func']
-dump=props.run_astdump(['internal/sourcemapx'],keys)
+dump=props.run_astdump(sorted({props.pkg_of_key(k) for k in keys}),keys)
 v=GoVerifier(dump,spec); v.load_axioms()
 fn=sys.argv[1]
 if fn.startswith('lemma:'): v.verify_lemma(fn[6:])
